@@ -56,6 +56,10 @@ def write(prop, tier, seed, records, wall, violations, total, discharged, skippe
     }
     if functions:
         cov["functions_encoded"] = functions
+        # keep the per-harness records compact: the union is reported once
+        for r in records:
+            if "functions" in r:
+                r["functions"] = len(r["functions"])
     if extra:
         cov.update(extra)
     ev = {
